@@ -27,7 +27,7 @@ CLAIMED = {
     ),
     "C04": (
         "property-based testing: independent allowed-edge / restricted-turn predicate over routes and trees produced with the real application-level frontier models",
-        "Road-class, vehicle-restriction (through the CSV row parser), turn-restriction, combined and edge-cut frontier models are built in memory from their services and driven by generated queries (numeric and mapped class names, vehicle parameters in other units); every route edge, tree branch and consecutive route pair is judged by an independent predicate using SI unit factors.",
+        "Road-class, vehicle-restriction (through the CSV row parser), turn-restriction, combined and edge-cut frontier models are built in memory from their services or (15 % of the cases) through the application's builders from configuration JSON and generated input files (empty allowed-class set, repeated rows per edge and kind, same-type models split over two files inside combined) and driven by generated queries (numeric and mapped class names, vehicle parameters in other units); every route edge, tree branch and consecutive route pair is judged by an independent predicate using SI unit factors.",
         "Trusted: the reference predicate; restriction values are generated >= 1 % away from the vehicle's value. Listed findings: edge-oriented boundary turns, Yen spur turns.",
         "DESIGN.md section 5 C04",
     ),
@@ -63,31 +63,31 @@ CLAIMED = {
     ),
     "C14": (
         "property-based testing: exact-reproduction oracle on random multilinear data, differential between interpolator implementations, corner-bound/continuity/clamping oracle against the underlying random forest",
-        "Generic interpolators (1D, 2D, 3D, ND) on generated non-uniform axes must reproduce a random multilinear polynomial exactly, agree with each other and with a dummy-axis embedding, and reject outside points; the speed/grade model is rebuilt over the four bundled model files with generated bounds/bins and queried in all 9 input-unit combinations at interior, on-line, +-ulp, boundary and outside points.",
+        "Generic interpolators (1D, 2D, 3D, ND) on generated non-uniform axes must reproduce a random multilinear polynomial exactly, agree with each other and with a dummy-axis embedding, and reject outside points; generic interpolators are also run on a non-multilinear table against a bracketing-cell reference; the speed/grade model is rebuilt over the four bundled model files with generated bounds/bins in any declared speed/grade/rate unit, must equal the model load_prediction_model builds from an interpolate section, and is queried in all 9 input-unit combinations at interior, on-line, +-ulp, boundary and outside points.",
         "Trusted: the bundled model files as data; own linspace recurrence for node positions.",
         "DESIGN.md section 5 C14",
     ),
     "C15": (
         "property-based testing: generated CSV/gzip files loaded through the real loaders and compared accessor by accessor with a reference adjacency list built from the same rows",
-        "Edge/vertex files are generated with reordered and extra columns, with/without trailing newline, gzip or plain per file, explicit or scanned counts and 0-7 digit coordinates; every Graph accessor, both adjacency views (as duplicate-free sets), vertex coordinates, gzip-vs-plain equality and row alignment of speed/heading/class tables are checked.",
+        "Edge/vertex files (loaded through the application's graph builder from a [graph] section) are generated with reordered and extra columns, with/without trailing newline, gzip or plain per file, explicit or scanned counts and 0-7 digit coordinates; every Graph accessor, both adjacency views (as duplicate-free sets), vertex coordinates, gzip-vs-plain equality and row alignment of speed/heading/class tables are checked.",
         "Trusted: the reference adjacency list. Preconditions from the Graph docs (ids = row index, end points < n_vertices) are respected by the generator; gzip files carry the .gz extension.",
         "DESIGN.md section 5 C15",
     ),
     "C16": (
         "property-based testing: exhaustive-scan oracle under the plugin's own f32 measure, great-circle tolerance band, query-preservation check",
-        "Vertex and edge matchers are built from generated files (lattice-snapped candidates for exact ties, road-class table, vehicle-restriction file) and queried at, near, between, around, far from and outside the candidates, with tolerances from 1 m to 500 km in all five units.",
+        "Vertex and edge matchers are built through their plugin builders from configuration JSON and generated files (lattice-snapped candidates for exact ties, road-class table, vehicle-restriction file) and queried at, near, between, around, far from and outside the candidates, with tolerances from 1 m to 500 km in all five units.",
         "Trusted: geo's centroid (a library, not code under test), the f64 haversine reference. Ties may be resolved either way; a +-1 % +- 5 m band around the tolerance accepts either outcome.",
         "DESIGN.md section 5 C16",
     ),
     "C17": (
         "exhaustive enumeration of small iterator shapes + property-based testing against a nested-loop reference product",
-        "All 340 mixed-radix shapes up to 4 axes x 4 options are enumerated for the iterator; generated query objects with grid sections (scalar/object/mixed choices, any key order, non-array members, overriding axis names) are expanded by the plugin directly and through apply_input_plugins and compared as key-order-insensitive multisets with a nested-loop reference.",
+        "All 340 mixed-radix shapes up to 4 axes x 4 options are enumerated for the iterator; generated query objects with grid sections (scalar/object/mixed choices, any key order, non-array members, overriding axis names) (incl. products of several thousand combinations) are expanded by the plugin directly and through apply_input_plugins (also grid search -> injected second grid -> grid search) and compared as key-order-insensitive multisets with a nested-loop reference.",
         "Trusted: the reference product. Colliding overlay keys are not generated (the statement defines no overlay order).",
         "DESIGN.md section 5 C17",
     ),
     "C08": (
-        "model-based property testing: generated edge histories through the real EnergyTraversalModel against a reference energy / state-of-charge / PHEV-mode / LRU-cache model",
-        "Histories of 1-12 edges (incl. steep downhill), three vehicle types over the bundled models (wrapped in the interpolation model for continuity), battery 0.05-100 kWh, valid and invalid starting charges, all unit configurations of time model / energy service / grade table, real-world adjustment, prediction cache with a reference LRU; per-edge energy, clamped charge update, PHEV mode by charge at entry, additivity, best-case estimate and starting-charge validation are checked.",
+        "model-based property testing: generated edge histories through the real EnergyTraversalModel against a reference energy / state-of-charge / PHEV-mode model",
+        "Histories of 1-12 edges (incl. steep downhill), three vehicle types over the bundled models (wrapped in the interpolation model for continuity), battery 0.05-100 kWh, valid and invalid starting charges, all unit configurations of time model / energy service / grade table, real-world adjustment, a service time unit that differs from the time feature's, vehicles built directly or through the application's vehicle builders from configuration JSON, prediction cache (the reference is the model's exact range over the cache key's bucket); per-edge energy, clamped charge update, PHEV mode by charge at entry, additivity, best-case estimate and starting-charge validation are checked.",
         "Trusted: the bundled model files as data; the reference formulas transcribed from the statement. Cache keys on a rounding boundary are not judged.",
         "DESIGN.md section 5 C08",
     ),
@@ -99,7 +99,7 @@ CLAIMED = {
     ),
     "C10": (
         "property-based testing with exhaustive limit sweeps: observed expansion counts (counting frontier model), reference replay of tree sizes, injected sleeps for runtime budgets",
-        "For every generated search the iteration / solution-size / combined limit is swept from 0 to beyond what the unlimited search needs (built through the configuration builder); each limited run must be identical to the unlimited result or an explicit terminated error naming the limit, success is monotone, observed expansions never exceed the iteration limit, and the size limit fires at the first check after the replayed tree size exceeds it; runtime budgets are tested with a traversal model that sleeps 3x the budget at a generated call.",
+        "For every generated search the iteration / solution-size / combined limit is swept from 0 to beyond what the unlimited search needs (built through the configuration builder); each limited run must be identical to the unlimited result or an explicit terminated error naming the limit, success is monotone, observed expansions never exceed the iteration limit, and the size limit fires at the first check after the replayed tree size exceeds it; runtime budgets are tested with a traversal model that sleeps 3x the budget at a generated call, and as configuration text (H:MM:SS + frequency) that must build a model with exactly that budget; Yen is judged as limited-versus-unlimited relation.",
         "Trusted: counting frontier wrapper (lower bound for expansions), the reference relaxation replay. Wall-clock only enters through a 60 ms budget vs a 180 ms injected sleep and a 10^4 margin on the other side.",
         "DESIGN.md section 5 C10",
     ),
@@ -123,7 +123,7 @@ CLAIMED = {
     ),
     "C20": (
         "property-based testing: one search result rendered in all five formats, decoded by own WKT/WKB/GeoJSON readers and compared with the edge sequence and a provenance-encoding geometry table",
-        "The traversal plugin is built from a generated geometry file (2-6 points per edge, coordinates encoding edge id and point index, optionally truncated) for each route and tree format and run on the same search result (several routes for single-via); edge ids, per-edge records, feature ids/properties/geometries, concatenated WKT/WKB geometry, one tree entry per branch, missing geometry => error, identifiers and summary counts are checked.",
+        "The traversal plugin is built from a generated geometry file (2-6 points per edge, coordinates encoding edge id and point index or sharing junction points and repeating a point, optionally truncated; identifier table with empty rows) for each route and tree format and run on the same search result (several routes for single-via); edge ids, per-edge records, feature ids/properties/geometries, concatenated WKT/WKB geometry, one tree entry per branch, missing geometry => error, identifiers and summary counts are checked.",
         "Trusted: own minimal WKT and little-endian WKB readers. Coordinates are compared exactly.",
         "DESIGN.md section 5 C20",
     ),
